@@ -42,5 +42,5 @@ Deliverables in {out}/ :
   3. notes.md     - 5-10 lines: what you changed, why it breaks the property, what exactly is needed for it to manifest,
                     and the output of the test suite with the patch applied.
 Verify all three claims yourself before finishing: (a) test suite passes with the patch, (b) demo.py fails with the patch,
-(c) demo.py passes after `git -C {wt} stash` / on the original code (then re-apply). Leave the worktree with your patch applied.
+(c) demo.py passes on the original code: `git -C {wt} diff > {out}/patch.diff; git -C {wt} apply -R {out}/patch.diff`, run it, then `git -C {wt} apply {out}/patch.diff` (do NOT use `git stash`: the stash is shared between worktrees). Leave the worktree with your patch applied.
 Do not edit tests. Keep the patch small (ideally < 15 changed lines).""")
